@@ -454,4 +454,34 @@ theorem run_inv (cont : Bool) (sub : Sub) : ∀ (ops : List Op) (w : World), Ste
 theorem opGood_of_cont (sub : Sub) (op : Op) : OpGood true sub op := by
   cases op <;> simp [OpGood, GoodGen]
 
+/-- after `unloadAll` nothing is started and no entity has a subscriber (for good generations; all are, when `cont`) -/
+theorem unload_baseline_aux (cont : Bool) (sub : Sub) (ops : List Op) (hgood : ∀ op ∈ ops, OpGood cont sub op) :
+    (run cont sub (ops ++ [.unloadAll])).started = [] ∧ ∀ e, subsOf (run cont sub (ops ++ [.unloadAll])).st e = [] := by
+  have h : StepInv cont sub (run cont sub (ops ++ [Op.unloadAll])) :=
+    run_inv cont sub (ops ++ [Op.unloadAll]) emptyWorld (emptyWorld_inv cont sub)
+    (by
+      intro op hop
+      rcases List.mem_append.mp hop with hop | hop
+      · exact hgood op hop
+      · simp only [List.mem_singleton] at hop; subst hop; trivial)
+  have hstarted : (run cont sub (ops ++ [.unloadAll])).started = [] := by
+    apply List.eq_nil_iff_forall_not_mem.mpr
+    intro g hg
+    have hact := h.active g hg
+    have hpre : StepInv cont sub (run cont sub ops) := run_inv cont sub ops emptyWorld (emptyWorld_inv cont sub) hgood
+    have hrun : run cont sub (ops ++ [.unloadAll]) = step cont sub (run cont sub ops) .unloadAll := by
+      simp [run, List.foldl_append]
+    rw [hrun] at hact
+    obtain ⟨h1, g1⟩ := applyOp_inv hpre.inv hpre.good .unloadAll trivial
+    unfold step at hact
+    rw [refs_sweep h1 g1] at hact
+    simp [applyOp, refs] at hact
+  refine ⟨hstarted, ?_⟩
+  intro e
+  apply List.eq_nil_iff_forall_not_mem.mpr
+  intro q hq
+  obtain ⟨g, hg, _⟩ := (h.inv.tables e q).mp hq
+  rw [hstarted] at hg
+  simp at hg
+
 end PsModel.C09
